@@ -113,8 +113,10 @@ def repeated(case):
 
 def pred(case, r):
     """clauses of C15 on the implementation's results; list of (site, failure_class, detail)"""
-    if repeated(case):
-        return []  # the property is about hypergraphs without repeated edges (those cases are correspondence-only)
+    if repeated(case) or case["min_size"] < 1:
+        # the property is about hypergraphs without repeated edges and sub-faces of size >= min_size >= 1
+        # (with min_size = 0 the empty set is enumerated as a sub-face); those cases are correspondence-only
+        return []
     if r.get("out") != "ok":
         return [("simpliciality", "raises", f"{r}")]
     b = brute(case)
@@ -171,8 +173,10 @@ def compare(case, r, mc):
     return diffs
 
 
-def model_vs_spec(mc):
+def model_vs_spec(case, mc):
     """the driver also evaluates the Lean brute-force spec functions: exact agreement expected where the theorems say so"""
+    if case["min_size"] < 1:
+        return []  # the theorems assume 1 <= min_size
     d = []  # the theorems do not need "no repeated edges", so this is checked on every modelled case
     if mc["spec_maximal"] != mc["maximal"]:
         d.append("maximal")
@@ -217,7 +221,7 @@ def gen_overlap(rng):
     of sub-faces shared between maximal faces)"""
     from ..fn import EDGE_IDS, LABELS
     k = rng.randint(4, 6)
-    lab = rng.choice(LABELS[:5])(k)
+    lab = rng.choice(LABELS[:5] + [LABELS[6]])(k)
     rng.shuffle(lab)
     faces = [rng.sample(lab, rng.randint(3, min(5, k))) for _ in range(rng.randint(2, 4))]
     pool, seen = [], set()
@@ -238,8 +242,9 @@ def gen_overlap(rng):
 def gen_random(rng, closed_bias=0.0):
     if rng.random() < 0.3:
         return gen_overlap(rng)
+    from ..fn import LABELS
     nodes, edges = gen_hypergraph(rng, max_nodes=6, max_edges=rng.choice([3, 5, 7]), max_size=rng.choice([3, 4, 5]),
-                                  multi=False, uniform_labels=True)
+                                  multi=False, labels=rng.choice(LABELS[:5] + [LABELS[6]]))
     u = rng.random()
     if u < closed_bias:
         # downward closure (full, or relaxed above a minimum size), sometimes with a few faces knocked out again
@@ -346,9 +351,11 @@ def evaluate(ctx, cases, label):
         ctx.stats[f"min_size={c['min_size']},excl={c['exclude_min_size']}"] += 1
         if r.get("out") != "ok":
             ctx.stats["impl_" + str(r.get("out"))] += 1
-        rep = repeated(c)
-        if rep:
+        rep = repeated(c) or c["min_size"] < 1
+        if repeated(c):
             ctx.stats["repeated-edge cases (correspondence only)"] += 1
+        if c["min_size"] < 1:
+            ctx.stats["min_size=0 cases (correspondence only)"] += 1
         else:
             sizes = sorted(len(ms) for _, ms in c["net"]["edges"])
             if r.get("out") == "ok" and sizes and sizes[-1] >= 2 and (r["sed_raw"] != "nan"):
@@ -373,10 +380,11 @@ def evaluate(ctx, cases, label):
         if d:
             dis.append((c, r, mc, d))
             ctx.stats["disagree:impl-vs-transcription"] += 1
-        d2 = model_vs_spec(mc)
+        d2 = model_vs_spec(c, mc)
         if d2:
             ctx.stats["disagree:transcription-vs-lean-spec"] += 1
-            ctx.broken.append(f"Lean transcription and Lean brute-force spec differ on {d2} (theorem would be false): {json.dumps(c)[:300]}")
+            if ctx.stats["disagree:transcription-vs-lean-spec"] <= 3:
+                ctx.broken.append(f"Lean transcription and Lean brute-force spec differ on {d2} (theorem would be false): {json.dumps(c)[:300]}")
         if mc.get("closed") and mc.get("no_repeat"):
             ctx.stats["downward-closed cases"] += 1
     if dis:
@@ -446,7 +454,7 @@ def run(ctx):
             cases += mk_cases(*relabel(nodes, edges, lambda n: STR[n]), configs=None if not ctx.quick else [(rng.choice([1, 2, 3]), rng.random() < 0.5)])
     dis += evaluate(ctx, cases, "small-scope")
     # random hypergraphs on <= 6 nodes, a third of them (partial) downward closures
-    nrand = ctx.n(250, 12000)
+    nrand = ctx.n(250, 8000)
     cases = []
     for i in range(nrand):
         nodes, edges = gen_random(rng, closed_bias=0.35)
@@ -456,6 +464,10 @@ def run(ctx):
     for i in range(ctx.n(20, 400)):
         nodes, edges = gen_hypergraph(rng, max_nodes=5, max_edges=5, max_size=4, multi=True, uniform_labels=True)
         cases += mk_cases(nodes, edges, [(rng.choice([1, 2, 3]), rng.random() < 0.5)])
+    # min_size outside {1,2,3}: 4 (predicate applies) and 0 (correspondence only)
+    for i in range(ctx.n(20, 400)):
+        nodes, edges = gen_random(rng, closed_bias=0.3)
+        cases += mk_cases(nodes, edges, [(rng.choice([0, 4]), rng.random() < 0.5)])
     for k in range(0, len(cases), 20000):
         dis += evaluate(ctx, cases[k:k + 20000], "random")
     bad = run_trie(ctx, ctx.n(100, 3000))
@@ -478,10 +490,12 @@ def run(ctx):
     ctx.extra["float_rule"] = "|x - p/q| <= 1e-9*max(1,|p/q|); NaN <-> undefined"
     ctx.rule = ("hypergraphs without repeated edges: exhaustive small scope (<=4 nodes, <=3 edges) and random ones on <=6 nodes (edge size <=5, "
                 "isolated nodes, int or str labels, shuffled node order, mixed edge IDs), 35% of them (partial) downward closures; "
-                "x min_size in {1,2,3} x exclude_min_size x normalize; plus repeated-edge inputs for the correspondence only and direct Trie probes; "
+                "x min_size in {1,2,3} (a few with 4) x exclude_min_size x normalize; plus repeated-edge and min_size=0 inputs for the correspondence only "
+                "and direct Trie probes (shuffled words/queries vs set membership); "
                 "non-trivial = distinct (input, result) with an edge of >= 2 members and an eligible maximal edge")
     ctx.assumptions = ["node labels all int or all str (Python's sorted() raises on mixed labels); no empty edge (EdgeView.maximal raises, F6)",
-                       "min_size >= 1 (with min_size = 0 the empty set is enumerated as a sub-face; outside the property's configurations)",
+                       "min_size >= 1 for the predicate and the theorems (with min_size = 0 the empty set is enumerated as a sub-face and counted once per "
+                       "non-adjacent maximal face; the transcription still agrees with the code there and is compared, the definitions are not)",
                        "iteration order of Python sets is not modelled: every consumer counts, collects into a set, or takes all()",
                        "mean_face_edit_distance returns 0 (not NaN) when there is no eligible maximal edge; the brute-force definition adopts that convention"]
     return finish(ctx, trusted_base=TRUSTED_COMMON + [
